@@ -12,7 +12,7 @@ from ..effects import callee
 from ..flow import Flow
 from .. import preds
 from ..preds import Scope, canon
-from .common import facts_for, optimizer_classes, strip_copy, is_void_waypoints_cost
+from .common import facts_for, optimizer_classes, strip_copy, is_void_waypoints_cost, fold_if_assign
 
 
 def run(chk):
@@ -163,6 +163,8 @@ def check_probe(chk, F, cls, f, inst):
 
 def check_primary(chk, F, cls, f):
     chk.saw(f)
+    f_orig = f
+    f = fold_if_assign(f)          # if / else assigning one result field = the conditional expression (R3 compares formulas)
     canon = safe_canon
     inst = f["full"].split("checkGradients")[1][:60]
     sc = Scope(f)
@@ -238,7 +240,7 @@ def check_primary(chk, F, cls, f):
         out, exits = fl.run(f, ("orig", False))
     except Broken:
         pass        # the shape-based walk only collects the result formulas for R3; R1 / R2 are decided semantically below
-    check_probe(chk, F, cls, f, inst)
+    check_probe(chk, F, cls, f_orig, inst)
     # R3
     def val(suffix):
         ks = [k for k in formula if k.endswith(suffix)]
